@@ -903,9 +903,10 @@ class TaskScenario(ScenarioData):
             else:
                 precise_end = self.project["start"]
 
-        # Release unused portion of the slot back to the resource
+        # Release unused portion of the slot back to the resource. Dates have microsecond resolution:
+        # a smaller remainder is rounding noise of the effort arithmetic, not free time.
         seconds_unused = booked_seconds - seconds_into_slot
-        if seconds_unused > 0 and resource:
+        if seconds_unused > 1e-6 and resource:
             if res_scenario:
                 # Update the per-task usage record to reflect actual usage
                 if self.currentSlotIdx in res_scenario.slotTaskUsage:
